@@ -1,7 +1,1027 @@
-"""Tie B for C19 (placeholder until the property's translator is written): writes an empty
-coq/theories/Gen/GenC19.v so that the project builds."""
+"""Tie B for C19: regenerate coq/theories/Gen/GenC19.v from the CURRENT source of
+
+  pypyr/loaders/file.py       cwd_pipelines_dir, pypyr_dir, builtin_pipelines_dir (module level),
+                              find_pipeline, get_pipeline_path, get_pipeline_definition,
+                              load_pipeline_from_file
+  pypyr/pipedef.py            PipelineInfo.__init__, PipelineFileInfo.__init__ (defaults, fields)
+  pypyr/steps/pype.py         get_arguments (the slice that computes loader / py_dir / parent),
+                              run_step (which PypeArgs fields reach new_pipe_and_args and
+                              load_and_run_pipeline)
+  pypyr/pipeline.py           Pipeline.load_and_run_pipeline, Pipeline.run (root parent)
+  pypyr/cache/loadercache.py  Loader.get_pipeline (cache key), Loader._load_pipeline (wrapping
+                              of a bare mapping), LoaderCache.get_pype_loader (default loader)
+  pypyr/config.py             Config.__init__: default_loader, pipelines_subdir
+
+Proofs/GenC19Proofs.v proves every generated definition equal to the hand-written model of
+Model/Loader.v, so an edit to that source re-checks, or breaks, those lemmas.
+
+Fail-closed: anything outside the subset below raises Untranslatable and the definition comes
+out as <name>_UNTRANSLATED (reason in a comment); the lemma naming the expected definition then
+no longer compiles.
+
+Subset / conventions
+  statements   x = e | x.append(e) | add_sys_path(e) | if/else (continuation duplicated) |
+               return e | raise Cls(msg) | `for v in xs: ...; if c: break ... else: raise`
+               followed by `return e` (-> Fixpoint over xs) | r = f(...) for a translated
+               function returning `res` (-> let*).  Names may be rebound (Coq `let` shadows).
+  dropped      docstrings, logger.* calls, `assert`; in load_pipeline_from_file the
+               `try: with open(path) as f: yaml = get_pipeline_yaml(f) except FileNotFoundError`
+               block is read as "yaml := the payload of the file at path"; `file_cache.get(k,
+               lambda: X)` is read as X; in load_and_run_pipeline `if context is None` and the
+               final `with context.pipeline_scope(self)` (running the steps) are not translated;
+               in get_arguments everything that does not feed loader / py_dir / parent.
+  types        str, path (both Coq string), parent (Loader.pyparent), bool, ostr (option
+               string), pair, list, info (Loader.pinfo), pdef, opts (Loader.pype_opts)
+  primitives   (Section Variables, instantiated by the proofs with the model's functions)
+               Path.is_absolute/is_file/exists/resolve/samefile/joinpath/.parent/.name, Path(),
+               add_sys_path; config.cwd, config.pipelines_subdir, config.default_loader, the
+               repository root
+  tables       pype.get('loader'|'resolveFromParent'|'parent'|'pyDir', d) -> the fields of
+               Loader.pype_opts; PipelineInfo attribute -> field of Loader.pinfo.
+"""
+import ast
+import os
+import sys
 from pathlib import Path
+
+REPO = Path(os.environ.get('VERIF_REPO', '/repo'))
 OUT = Path(__file__).resolve().parent.parent / 'coq' / 'theories' / 'Gen' / 'GenC19.v'
-TEXT = '(* Gen/GenC19.v - placeholder *)\n'
-if not OUT.exists() or OUT.read_text() != TEXT:
-    OUT.write_text(TEXT)
+
+STR, PATH, PARENT, BOOL, OSTR, NONE = 'str', 'path', 'parent', 'bool', 'ostr', 'none'
+INFO, PDEF, OPTS, YAML, ST = 'info', 'pdef', 'opts', 'yaml', 'st'
+
+
+class Untranslatable(Exception):
+    pass
+
+
+def coq_str(s):
+    if '\n' in s:
+        parts = s.split('\n')
+        return '(' + ' ++ nl ++ '.join(coq_str(p) for p in parts) + ')'
+    if any(ord(c) < 32 or ord(c) > 126 for c in s):
+        raise Untranslatable('non-printable constant')
+    return '"' + s.replace('"', '""') + '"'
+
+
+def is_logging(st):
+    return (isinstance(st, ast.Expr) and isinstance(st.value, ast.Call)
+            and isinstance(st.value.func, ast.Attribute) and isinstance(st.value.func.value, ast.Name)
+            and st.value.func.value.id == 'logger')
+
+
+def is_doc(st):
+    return isinstance(st, ast.Expr) and isinstance(st.value, ast.Constant) and isinstance(st.value.value, str)
+
+
+def skip(st):
+    return is_logging(st) or is_doc(st) or isinstance(st, ast.Assert) or isinstance(st, ast.Pass)
+
+
+def find(tree, qual):
+    body, node = tree.body, None
+    for p in qual.split('.'):
+        node = next((n for n in body if isinstance(n, (ast.FunctionDef, ast.ClassDef)) and n.name == p), None)
+        if node is None:
+            raise Untranslatable(f'{qual} not found')
+        body = node.body
+    return node
+
+
+def module_assign(tree, name):
+    for n in tree.body:
+        if isinstance(n, ast.Assign) and len(n.targets) == 1 and isinstance(n.targets[0], ast.Name) \
+                and n.targets[0].id == name:
+            return n.value
+    raise Untranslatable(f'module-level {name} not found')
+
+
+def imported_names(tree):
+    """name -> qualified name for `from m import a`"""
+    out = {}
+    for n in tree.body:
+        if isinstance(n, ast.ImportFrom) and n.module:
+            for a in n.names:
+                out[a.asname or a.name] = f'{n.module}.{a.name}'
+    return out
+
+
+INFO_FIELDS = {'pipeline_name': ('i_name', STR), 'loader': ('i_loader', STR), 'parent': ('i_parent', PARENT),
+               'is_loader_cascading': ('i_lcasc', BOOL), 'is_parent_cascading': ('i_pcasc', BOOL)}
+
+PYPE_KEYS = {'loader': ('optkey_get_ostr', 'o_loader', OSTR), 'parent': ('optkey_get_parent', 'o_parent', PARENT),
+             'resolveFromParent': ('opt_get_bool', 'o_resolve', BOOL), 'pyDir': (None, 'o_pydir', OSTR)}
+
+# result-returning translated functions: python name -> (coq name, [arg types], value type, effectful)
+RES_FUNS = {'find_pipeline': ('gen_find_pipeline', [STR, ('list', ('pair', PATH, STR))], PATH),
+            'get_pipeline_path': ('gen_get_pipeline_path', [STR, PARENT], PATH)}
+
+
+class Tr:
+    """expression / statement translator for one module"""
+
+    def __init__(self, modname, tree):
+        self.modname = modname
+        self.tree = tree
+        self.imports = imported_names(tree)
+
+    # ---------------------------------------------------------------- types
+    def coerce(self, t, ty, want):
+        if want is None or want == ty:
+            return t
+        if ty == NONE and want == OSTR:
+            return 'None'
+        if ty == NONE and want == PARENT:
+            return 'PNone'
+        if ty == STR and want == OSTR:
+            return f'(Some {t})'
+        if ty == PATH and want == PARENT:
+            return f'(PPath {t})'
+        if ty == STR and want == PARENT:
+            return f'(PStr {t})'
+        if ty == OSTR and want == PARENT:
+            return f'(match {t} with Some s => PStr s | None => PNone end)'
+        if ty == PATH and want == STR:
+            raise Untranslatable('a Path used where a str is expected')
+        raise Untranslatable(f'type {ty} where {want} expected')
+
+    def join_types(self, a, b):
+        if a == b:
+            return a
+        s = {a, b}
+        if s == {NONE, STR} or s == {NONE, OSTR} or s == {STR, OSTR}:
+            return OSTR
+        if PARENT in s and s <= {PARENT, NONE, PATH, STR}:
+            return PARENT
+        if s == {NONE, PATH}:
+            return PARENT
+        raise Untranslatable(f'branches of types {a} and {b}')
+
+    def truthy(self, t, ty):
+        if ty == BOOL:
+            return t
+        if ty == PARENT:
+            return f'(p_truthy {t})'
+        if ty == OSTR:
+            return f'(ostr_truthy {t})'
+        if ty == STR:
+            return f'(negb ({t} =? ""))'
+        raise Untranslatable(f'truth value of a {ty}')
+
+    def truth(self, e, env):
+        if isinstance(e, ast.UnaryOp) and isinstance(e.op, ast.Not):
+            return f'(negb {self.truth(e.operand, env)})'
+        if isinstance(e, ast.BoolOp):
+            ts = [self.truth(v, env) for v in e.values]
+            op = 'andb' if isinstance(e.op, ast.And) else 'orb'
+            acc = ts[-1]
+            for t in reversed(ts[:-1]):
+                acc = f'({op} {t} {acc})'
+            return acc
+        t, ty = self.expr(e, env)
+        return self.truthy(t, ty)
+
+    # ---------------------------------------------------------------- expressions
+    def expr(self, e, env):
+        if isinstance(e, ast.Name):
+            if e.id == '__name__':
+                return coq_str(self.modname), STR
+            if e.id in env:
+                return env[e.id]
+            raise Untranslatable(f'unknown name {e.id}')
+        if isinstance(e, ast.Constant):
+            v = e.value
+            if v is None:
+                return '(@None string)', NONE    # retyped by coerce where it is used
+            if isinstance(v, bool):
+                return ('true' if v else 'false'), BOOL
+            if isinstance(v, str):
+                return coq_str(v), STR
+            raise Untranslatable(f'constant {v!r}')
+        if isinstance(e, ast.JoinedStr):
+            parts = []
+            for v in e.values:
+                if isinstance(v, ast.Constant) and isinstance(v.value, str):
+                    parts.append(coq_str(v.value))
+                elif isinstance(v, ast.FormattedValue) and v.conversion == -1 and v.format_spec is None:
+                    parts.append(self.text_of(*self.expr(v.value, env)))
+                else:
+                    raise Untranslatable('f-string part')
+            return '(' + ' ++ '.join(parts) + ')', STR
+        if isinstance(e, ast.Attribute):
+            key = ast.unparse(e)
+            if key in env:
+                return env[key]
+            if key == 'config.cwd':
+                return 'cfg_cwd', PATH
+            if key == 'config.pipelines_subdir':
+                return 'cfg_pipelines_subdir', STR
+            if key == 'config.default_loader':
+                return 'cfg_default_loader', STR
+            t, ty = self.expr(e.value, env)
+            if ty == PATH and e.attr == 'parent':
+                return f'(prim_parent {t})', PATH
+            if ty == PATH and e.attr == 'name':
+                return f'(prim_name {t})', STR
+            if ty == INFO and e.attr in INFO_FIELDS:
+                f, fty = INFO_FIELDS[e.attr]
+                return f'({f} {t})', fty
+            raise Untranslatable(f'attribute {e.attr} of a {ty}')
+        if isinstance(e, ast.UnaryOp) and isinstance(e.op, ast.Not):
+            return self.truth(e, env), BOOL
+        if isinstance(e, ast.BoolOp):
+            return self.truth(e, env), BOOL
+        if isinstance(e, ast.Compare) and len(e.ops) == 1 and isinstance(e.ops[0], (ast.Eq, ast.NotEq)):
+            a, ta = self.expr(e.left, env)
+            b, tb = self.expr(e.comparators[0], env)
+            if (ta, tb) == (OSTR, STR):
+                t = f'(ostr_eq_str {a} {b})'
+            elif (ta, tb) == (STR, OSTR):
+                t = f'(ostr_eq_str {b} {a})'
+            elif ta == tb and ta in (STR, PATH):
+                t = f'({a} =? {b})'
+            else:
+                raise Untranslatable(f'== between {ta} and {tb}')
+            return (t if isinstance(e.ops[0], ast.Eq) else f'(negb {t})'), BOOL
+        if isinstance(e, ast.IfExp):
+            # `x if isinstance(x, Path) else Path(x)` narrows a parent to its two classes
+            tst = e.test
+            if isinstance(tst, ast.Call) and isinstance(tst.func, ast.Name) and tst.func.id == 'isinstance' \
+                    and len(tst.args) == 2 and isinstance(tst.args[0], ast.Name) \
+                    and isinstance(tst.args[1], ast.Name) and tst.args[1].id == 'Path':
+                n = tst.args[0].id
+                t, ty = self.expr(tst.args[0], env)
+                if ty != PARENT:
+                    raise Untranslatable('isinstance(_, Path) on a non-parent')
+                a, ta = self.expr(e.body, dict(env, **{n: (f'(parent_text {t})', PATH)}))
+                b, tb = self.expr(e.orelse, dict(env, **{n: (f'(parent_text {t})', STR)}))
+                ty2 = self.join_types(ta, tb)
+                return (f'(if is_path_obj {t} then {self.coerce(a, ta, ty2)} '
+                        f'else {self.coerce(b, tb, ty2)})'), ty2
+            c = self.truth(tst, env)
+            a, ta = self.expr(e.body, env)
+            b, tb = self.expr(e.orelse, env)
+            ty2 = self.join_types(ta, tb)
+            return f'(if {c} then {self.coerce(a, ta, ty2)} else {self.coerce(b, tb, ty2)})', ty2
+        if isinstance(e, ast.Tuple) and len(e.elts) == 2:
+            a, ta = self.expr(e.elts[0], env)
+            b, tb = self.expr(e.elts[1], env)
+            return f'({a}, {b})', ('pair', ta, tb)
+        if isinstance(e, ast.Subscript) and isinstance(e.slice, ast.Constant) and e.slice.value in (0, 1):
+            t, ty = self.expr(e.value, env)
+            if not (isinstance(ty, tuple) and ty[0] == 'pair'):
+                raise Untranslatable('subscript of a non-pair')
+            return f'({"fst" if e.slice.value == 0 else "snd"} {t})', ty[1 + e.slice.value]
+        if isinstance(e, ast.List) and not e.elts:
+            return '[]', ('list', None)
+        if isinstance(e, ast.ListComp) and len(e.generators) == 1 and not e.generators[0].ifs \
+                and isinstance(e.generators[0].target, ast.Name):
+            g = e.generators[0]
+            xs, tx = self.expr(g.iter, env)
+            if not (isinstance(tx, tuple) and tx[0] == 'list'):
+                raise Untranslatable('comprehension over a non-list')
+            v = g.target.id
+            b, tb = self.expr(e.elt, dict(env, **{v: (v, tx[1])}))
+            return f'(map (fun {v} => {b}) {xs})', ('list', tb)
+        if isinstance(e, ast.Call):
+            return self.call(e, env)
+        raise Untranslatable(f'expression {type(e).__name__}: {ast.unparse(e)[:60]}')
+
+    def text_of(self, t, ty):
+        """str(x) / f'{x}'"""
+        if ty in (STR, PATH):
+            return t
+        if ty == PARENT:
+            return f'(p_str {t})'
+        raise Untranslatable(f'str() of a {ty}')
+
+    def kwargs(self, e, names, env):
+        if e.args:
+            raise Untranslatable(f'positional arguments to {ast.unparse(e.func)}')
+        got = {k.arg: k.value for k in e.keywords}
+        if set(got) - set(names):
+            raise Untranslatable(f'unexpected keyword {sorted(set(got) - set(names))}')
+        return got
+
+    def call(self, e, env):
+        f = e.func
+        if isinstance(f, ast.Name):
+            if f.id == 'Path' and len(e.args) == 1 and not e.keywords:
+                t, ty = self.expr(e.args[0], env)
+                if ty == PATH:
+                    return t, PATH
+                if ty != STR:
+                    raise Untranslatable(f'Path() of a {ty}')
+                return f'(prim_Path {t})', PATH
+            if f.id == 'str' and len(e.args) == 1 and not e.keywords:
+                return self.text_of(*self.expr(e.args[0], env)), STR
+            if f.id in ('PipelineInfo', 'PipelineFileInfo'):
+                want = {'PipelineInfo': ['pipeline_name', 'loader', 'parent', 'is_parent_cascading',
+                                         'is_loader_cascading'],
+                        'PipelineFileInfo': ['pipeline_name', 'loader', 'parent', 'path']}[f.id]
+                got = self.kwargs(e, want, env)
+                args = []
+                for n in want:
+                    if n not in got:
+                        if f.id == 'PipelineInfo' and n.startswith('is_'):
+                            args.append(f'gen_PipelineInfo_default_{n}')
+                            continue
+                        raise Untranslatable(f'{f.id}: missing {n}')
+                    t, ty = self.expr(got[n], env)
+                    wty = PATH if n == 'path' else INFO_FIELDS[n][1]
+                    args.append(self.coerce(t, ty, wty))
+                return f'(gen_{f.id} ' + ' '.join(args) + ')', INFO
+            if f.id == 'PipelineDefinition':
+                got = self.kwargs(e, ['pipeline', 'info'], env)
+                if set(got) != {'pipeline', 'info'}:
+                    raise Untranslatable('PipelineDefinition arguments')
+                p, tp = self.expr(got['pipeline'], env)
+                i, ti = self.expr(got['info'], env)
+                if tp != YAML or ti != INFO:
+                    raise Untranslatable('PipelineDefinition argument types')
+                isfile = 'true' if (isinstance(got['info'], ast.Name) and env.get('$fileinfo') == got['info'].id) \
+                    or (isinstance(got['info'], ast.Call) and ast.unparse(got['info'].func) == 'PipelineFileInfo') \
+                    else 'false'
+                return f'{{| d_file := {p}; d_is_file_info := {isfile}; d_info := {i} |}}', PDEF
+            raise Untranslatable(f'call of {f.id}')
+        if isinstance(f, ast.Attribute):
+            # pype.get(key, default)
+            if isinstance(f.value, ast.Name) and f.attr == 'get' and env.get(f.value.id, (None, None))[1] == OPTS \
+                    and len(e.args) == 2 and isinstance(e.args[0], ast.Constant) and not e.keywords:
+                key = e.args[0].value
+                if key not in PYPE_KEYS:
+                    raise Untranslatable(f'pype key {key!r}')
+                fn, field, fty = PYPE_KEYS[key]
+                o = env[f.value.id][0]
+                d, td = self.expr(e.args[1], env)
+                if fn is None:
+                    if td != NONE:
+                        raise Untranslatable(f'default of pype.get({key!r})')
+                    return f'({field} {o})', fty
+                return f'({fn} ({field} {o}) {self.coerce(d, td, fty)})', fty
+            # "\n".join(xs)
+            if f.attr == 'join' and isinstance(f.value, ast.Constant) and isinstance(f.value.value, str) \
+                    and len(e.args) == 1:
+                xs, tx = self.expr(e.args[0], env)
+                if tx != ('list', STR):
+                    raise Untranslatable('join of a non list-of-str')
+                return f'(join {coq_str(f.value.value)} {xs})', STR
+            t, ty = self.expr(f.value, env)
+            if ty == PATH and not e.keywords:
+                if f.attr in ('is_absolute', 'is_file', 'exists') and not e.args:
+                    return f'(prim_{f.attr} {t})', BOOL
+                if f.attr == 'resolve' and not e.args:
+                    return f'(prim_resolve {t})', PATH
+                if f.attr in ('samefile', 'joinpath') and len(e.args) == 1:
+                    a, ta = self.expr(e.args[0], env)
+                    if ta not in (PATH, STR) or (f.attr == 'samefile' and ta != PATH):
+                        raise Untranslatable(f'{f.attr} argument of type {ta}')
+                    return f'(prim_{f.attr} {t} {a})', (BOOL if f.attr == 'samefile' else PATH)
+            raise Untranslatable(f'method {f.attr} of a {ty}')
+        raise Untranslatable('call')
+
+    # ---------------------------------------------------------------- statements
+    def block(self, stmts, env, mode, k=None):
+        """mode: 'res' (function returns a value or raises -> res T) | 'eff' (returns (st, value))"""
+        stmts = [s for s in stmts if not skip(s)]
+        if not stmts:
+            if k is None:
+                raise Untranslatable('control reaches the end of the function')
+            return k(env)
+        st, rest = stmts[0], stmts[1:]
+
+        def cont(env2):
+            return self.block(rest, env2, mode, k)
+
+        if isinstance(st, ast.Return):
+            if st.value is None:
+                raise Untranslatable('bare return')
+            t, ty = self.expr(st.value, env)
+            env['$ret'] = ty
+            return f'Ok {t}' if mode == 'res' else f'({env["$st"][0]}, {t})'
+        if isinstance(st, ast.Raise) and mode == 'res' and isinstance(st.exc, ast.Call) \
+                and isinstance(st.exc.func, ast.Name) and len(st.exc.args) == 1:
+            cls = self.imports.get(st.exc.func.id)
+            if cls is None:
+                raise Untranslatable(f'unknown exception class {st.exc.func.id}')
+            m, tm = self.expr(st.exc.args[0], env)
+            if tm != STR:
+                raise Untranslatable('exception message type')
+            return f'Err {coq_str(cls)} {m}'
+        if isinstance(st, ast.If):
+            c = self.truth(st.test, env)
+            a = self.block(st.body + rest, dict(env), mode, k)
+            b = self.block(st.orelse + rest, dict(env), mode, k)
+            return f'(if {c} then {a} else {b})'
+        if isinstance(st, ast.Assign) and len(st.targets) == 1 and isinstance(st.targets[0], ast.Name):
+            v = st.targets[0].id
+            val = st.value
+            if isinstance(val, ast.Call) and isinstance(val.func, ast.Name) and val.func.id in RES_FUNS:
+                fn, argtys, rty = RES_FUNS[val.func.id]
+                args = self.call_args(val, argtys, env)
+                if mode != 'res' and mode != 'effres':
+                    raise Untranslatable('result-returning call outside a result-returning function')
+                env2 = dict(env, **{v: (v, rty)})
+                return f'(let* {v} := {fn} {args} in {cont(env2)})'
+            t, ty = self.expr(val, env)
+            env2 = dict(env, **{v: (v, ty)})
+            if isinstance(val, ast.Call) and ast.unparse(val.func) == 'PipelineFileInfo':
+                env2['$fileinfo'] = v
+            return f'(let {v} := {t} in {cont(env2)})'
+        if isinstance(st, ast.Expr) and isinstance(st.value, ast.Call):
+            c = st.value
+            if isinstance(c.func, ast.Attribute) and c.func.attr == 'append' and isinstance(c.func.value, ast.Name) \
+                    and len(c.args) == 1 and not c.keywords:
+                v = c.func.value.id
+                lt, lty = self.expr(c.func.value, env)
+                if not (isinstance(lty, tuple) and lty[0] == 'list'):
+                    raise Untranslatable('append to a non-list')
+                x, tx = self.expr(c.args[0], env)
+                if lty[1] is not None and lty[1] != tx:
+                    raise Untranslatable('list element type')
+                env2 = dict(env, **{v: (v, ('list', tx))})
+                return f'(let {v} := ({lt} ++ [{x}])%list in {cont(env2)})'
+            if ast.unparse(c.func) in ('add_sys_path', 'pypyr.moduleloader.add_sys_path') and len(c.args) == 1 \
+                    and not c.keywords and '$st' in env:
+                x, tx = self.expr(c.args[0], env)
+                if tx == OSTR:     # a truthy option: its content
+                    raise Untranslatable('add_sys_path of a possibly-None value')
+                s = env['$st'][0]
+                env2 = dict(env, **{'$st': (s, ST)})
+                return f'(let {s} := prim_add_sys_path {s} {self.coerce(x, tx, PARENT)} in {cont(env2)})'
+        raise Untranslatable(f'statement {type(st).__name__}: {ast.unparse(st)[:70]}')
+
+    def call_args(self, call, argtys, env):
+        if call.keywords and call.args:
+            raise Untranslatable('mixed positional/keyword call')
+        vals = list(call.args)
+        if call.keywords:
+            fn = find(self.tree, call.func.id)
+            names = [a.arg for a in fn.args.args]
+            kw = {k.arg: k.value for k in call.keywords}
+            if set(kw) != set(names):
+                raise Untranslatable('keyword arguments do not match the signature')
+            vals = [kw[n] for n in names]
+        if len(vals) != len(argtys):
+            raise Untranslatable('argument count')
+        out = []
+        for v, ty in zip(vals, argtys):
+            t, tv = self.expr(v, env)
+            if isinstance(ty, tuple):
+                if tv != ty:
+                    raise Untranslatable(f'argument type {tv}')
+                out.append(t)
+            else:
+                out.append(self.coerce(t, tv, ty))
+        return ' '.join(out)
+
+
+# ---------------------------------------------------------------------- units
+
+def parse(rel):
+    p = REPO / rel
+    return ast.parse(p.read_text()), rel[:-3].replace('/', '.')
+
+
+def unit_config():
+    tree, _ = parse('pypyr/config.py')
+    init = find(tree, 'Config.__init__')
+    vals = {}
+    for st in ast.walk(init):
+        if isinstance(st, ast.Assign) and len(st.targets) == 1 and isinstance(st.targets[0], ast.Attribute) \
+                and isinstance(st.targets[0].value, ast.Name) and st.targets[0].value.id == 'self' \
+                and st.targets[0].attr in ('default_loader', 'pipelines_subdir'):
+            if st.targets[0].attr in vals or not (isinstance(st.value, ast.Constant) and isinstance(st.value.value, str)):
+                raise Untranslatable(f'Config.{st.targets[0].attr} is not a single string constant')
+            vals[st.targets[0].attr] = st.value.value
+    if set(vals) != {'default_loader', 'pipelines_subdir'}:
+        raise Untranslatable('Config defaults not found')
+    return [f'Definition gen_config_default_loader : string := {coq_str(vals["default_loader"])}.',
+            f'Definition gen_config_pipelines_subdir : string := {coq_str(vals["pipelines_subdir"])}.']
+
+
+def unit_pipedef():
+    tree, _ = parse('pypyr/pipedef.py')
+    init = find(tree, 'PipelineInfo.__init__')
+    names = [a.arg for a in init.args.args][1:]
+    defaults = dict(zip(names[len(names) - len(init.args.defaults):], init.args.defaults))
+    if set(names) != set(INFO_FIELDS):
+        raise Untranslatable(f'PipelineInfo.__init__ parameters {names}')
+    out = []
+    for n in ('is_parent_cascading', 'is_loader_cascading'):
+        d = defaults.get(n)
+        if not (isinstance(d, ast.Constant) and isinstance(d.value, bool)):
+            raise Untranslatable(f'default of {n}')
+        out.append(f'Definition gen_PipelineInfo_default_{n} : bool := {"true" if d.value else "false"}.')
+    # body: self.<attr> = <param>
+    assigned = {}
+    for st in init.body:
+        if skip(st):
+            continue
+        if isinstance(st, ast.Assign) and len(st.targets) == 1 and isinstance(st.targets[0], ast.Attribute) \
+                and isinstance(st.targets[0].value, ast.Name) and st.targets[0].value.id == 'self' \
+                and isinstance(st.value, ast.Name) and st.value.id in names:
+            assigned[st.targets[0].attr] = st.value.id
+        else:
+            raise Untranslatable(f'PipelineInfo.__init__: {ast.unparse(st)[:60]}')
+    if set(assigned) != set(INFO_FIELDS):
+        raise Untranslatable('PipelineInfo.__init__ does not set every attribute')
+    order = ['pipeline_name', 'loader', 'parent', 'is_parent_cascading', 'is_loader_cascading']
+    tys = {'pipeline_name': 'string', 'loader': 'string', 'parent': 'pyparent',
+           'is_parent_cascading': 'bool', 'is_loader_cascading': 'bool'}
+    params = ' '.join(f'({n} : {tys[n]})' for n in order)
+    fields = '; '.join(f'{INFO_FIELDS[a][0]} := {assigned[a]}' for a in
+                       ['pipeline_name', 'loader', 'parent', 'is_loader_cascading', 'is_parent_cascading'])
+    out.append(f'Definition gen_PipelineInfo {params} : pinfo := {{| {fields} |}}.')
+    # PipelineFileInfo.__init__: super().__init__(pipeline_name=..., loader=..., parent=...); self.path = path
+    finit = find(tree, 'PipelineFileInfo.__init__')
+    fnames = [a.arg for a in finit.args.args][1:]
+    if fnames != ['pipeline_name', 'loader', 'parent', 'path'] or finit.args.defaults:
+        raise Untranslatable(f'PipelineFileInfo.__init__ parameters {fnames}')
+    sup = None
+    for st in finit.body:
+        if skip(st):
+            continue
+        if isinstance(st, ast.Expr) and isinstance(st.value, ast.Call) \
+                and ast.unparse(st.value.func) == 'super().__init__' and sup is None:
+            sup = st.value
+        elif isinstance(st, ast.Assign) and ast.unparse(st.targets[0]) == 'self.path' \
+                and isinstance(st.value, ast.Name) and st.value.id == 'path':
+            pass
+        else:
+            raise Untranslatable(f'PipelineFileInfo.__init__: {ast.unparse(st)[:60]}')
+    if sup is None or sup.args:
+        raise Untranslatable('PipelineFileInfo.__init__: super().__init__ call')
+    kw = {k.arg: k.value for k in sup.keywords}
+    args = []
+    for n in order:
+        if n in kw:
+            if not (isinstance(kw[n], ast.Name) and kw[n].id in fnames):
+                if isinstance(kw[n], ast.Constant) and isinstance(kw[n].value, bool):
+                    args.append('true' if kw[n].value else 'false')
+                    continue
+                raise Untranslatable(f'super().__init__ argument {n}')
+            args.append(kw[n].id)
+        elif n.startswith('is_'):
+            args.append(f'gen_PipelineInfo_default_{n}')
+        else:
+            raise Untranslatable(f'super().__init__ misses {n}')
+    out.append('Definition gen_PipelineFileInfo (pipeline_name loader : string) (parent : pyparent) '
+               f'(path : string) : pinfo := gen_PipelineInfo {" ".join(args)}.')
+    return out
+
+
+def for_else_find(tr, fn, env):
+    """for v in xs: <assigns>; if c: break [else: log]   else: raise X(msg)   ; return e"""
+    body = [s for s in fn.body if not skip(s)]
+    if len(body) != 2 or not isinstance(body[0], ast.For) or not isinstance(body[1], ast.Return):
+        raise Untranslatable('find_pipeline: expected `for ... else ...` followed by `return`')
+    loop, ret = body
+    if not (isinstance(loop.target, ast.Name) and isinstance(loop.iter, ast.Name)):
+        raise Untranslatable('loop header')
+    xs, txs = tr.expr(loop.iter, env)
+    v = loop.target.id
+    lenv = dict(env, **{v: (v, txs[1])})
+    lets = []
+    stmts = [s for s in loop.body if not skip(s)]
+    assigned = []
+    while stmts and isinstance(stmts[0], ast.Assign):
+        st = stmts.pop(0)
+        if len(st.targets) != 1 or not isinstance(st.targets[0], ast.Name):
+            raise Untranslatable('loop assignment')
+        t, ty = tr.expr(st.value, lenv)
+        n = st.targets[0].id
+        lets.append(f'let {n} := {t} in ')
+        lenv[n] = (n, ty)
+        assigned.append(n)
+    if len(stmts) != 1 or not isinstance(stmts[0], ast.If):
+        raise Untranslatable('loop body must end in `if ...: break`')
+    iff = stmts[0]
+    tb = [s for s in iff.body if not skip(s)]
+    eb = [s for s in iff.orelse if not skip(s)]
+    if len(tb) != 1 or not isinstance(tb[0], ast.Break) or eb:
+        raise Untranslatable('loop `if` must be `break` / nothing')
+    c = tr.truth(iff.test, lenv)
+    # the value that survives the loop: the names the `return` reads
+    live = [n for n in assigned if any(isinstance(x, ast.Name) and x.id == n for x in ast.walk(ret.value))]
+    if len(live) != 1:
+        raise Untranslatable('exactly one loop variable must be live after the loop')
+    res = live[0]
+    loop_def = (f'Fixpoint gen_find_pipeline_loop (file_name : string) (dirs : list (string * string)) '
+                f': option string :=\n  match {xs} with\n  | [] => None\n  | {v} :: {xs}\' =>\n      '
+                + ''.join(lets) + f'if {c} then Some {res} else gen_find_pipeline_loop file_name {xs}\'\n  end.')
+    # else: raise
+    els = [s for s in loop.orelse if not skip(s)]
+    renv = dict(env)
+    err = tr.block(els, renv, 'res')
+    renv2 = dict(env, **{res: (res, lenv[res][1])})
+    okv, tyv = tr.expr(ret.value, renv2)
+    if tyv != PATH:
+        raise Untranslatable('find_pipeline must return a Path')
+    main = ('Definition gen_find_pipeline (file_name : string) (dirs : list (string * string)) : res string :=\n'
+            f'  match gen_find_pipeline_loop file_name dirs with\n  | Some {res} => Ok {okv}\n  | None => {err}\n  end.')
+    return [loop_def, main]
+
+
+def unit_file():
+    tree, modname = parse('pypyr/loaders/file.py')
+    tr = Tr(modname, tree)
+    out = [f'Definition gen_file_loader_name : string := {coq_str(modname)}.']
+    # module level: cwd_pipelines_dir, pypyr_dir, builtin_pipelines_dir
+    e = module_assign(tree, 'pypyr_dir')
+    if not (isinstance(e, ast.Subscript) and ast.unparse(e.value) == 'Path(__file__).parents'
+            and isinstance(e.slice, ast.Constant) and isinstance(e.slice.value, int)):
+        raise Untranslatable('pypyr_dir is not Path(__file__).parents[n]')
+    parts = 'pypyr/loaders/file.py'.split('/')[:-1]
+    up = e.slice.value
+    if up >= len(parts):
+        raise Untranslatable('pypyr_dir above the repository')
+    t = 'repo_root'
+    for seg in parts[:len(parts) - up]:
+        t = f'(prim_joinpath {t} {coq_str(seg)})'
+    out.append(f'Definition gen_pypyr_dir : string := {t}.')
+    genv = {'pypyr_dir': ('gen_pypyr_dir', PATH)}
+    for name in ('cwd_pipelines_dir', 'builtin_pipelines_dir'):
+        t, ty = tr.expr(module_assign(tree, name), genv)
+        if ty != PATH:
+            raise Untranslatable(f'{name} is not a Path')
+        out.append(f'Definition gen_{name} : string := {t}.')
+        genv[name] = (f'gen_{name}', PATH)
+    # find_pipeline
+    fn = find(tree, 'find_pipeline')
+    if [a.arg for a in fn.args.args] != ['file_name', 'dirs']:
+        raise Untranslatable('find_pipeline signature')
+    env = dict(genv, file_name=('file_name', STR), dirs=('dirs', ('list', ('pair', PATH, STR))))
+    out += for_else_find(tr, fn, env)
+    # get_pipeline_path
+    fn = find(tree, 'get_pipeline_path')
+    if [a.arg for a in fn.args.args] != ['pipeline_name', 'parent']:
+        raise Untranslatable('get_pipeline_path signature')
+    env = dict(genv, pipeline_name=('pipeline_name', STR), parent=('parent', PARENT))
+    body = tr.block(fn.body, env, 'res')
+    out.append('Definition gen_get_pipeline_path (pipeline_name : string) (parent : pyparent) : res string :=\n  '
+               + body + '.')
+    # load_pipeline_from_file
+    fn = find(tree, 'load_pipeline_from_file')
+    if [a.arg for a in fn.args.args] != ['path']:
+        raise Untranslatable('load_pipeline_from_file signature')
+    stmts = [s for s in fn.body if not skip(s)]
+    if not stmts or not isinstance(stmts[0], ast.Try):
+        raise Untranslatable('load_pipeline_from_file: expected the try/open block first')
+    yaml_var = read_yaml_block(stmts[0])
+    env = dict(genv, path=('path', PATH), **{yaml_var: ('path', YAML), '$st': ('st', ST)})
+    body = tr.block(stmts[1:], env, 'eff')
+    if env.get('$ret') != PDEF:
+        pass
+    out.append('Definition gen_load_pipeline_from_file (path : string) (st : sysst) : sysst * pdef :=\n  '
+               + body + '.')
+    # get_pipeline_definition: path look-up, then (through file_cache) load_pipeline_from_file
+    fn = find(tree, 'get_pipeline_definition')
+    if [a.arg for a in fn.args.args] != ['pipeline_name', 'parent']:
+        raise Untranslatable('get_pipeline_definition signature')
+    stmts = [s for s in fn.body if not skip(s)]
+    if len(stmts) != 3:
+        raise Untranslatable('get_pipeline_definition: expected look-up, cached load, return')
+    a, b, c = stmts
+    if not (isinstance(a, ast.Assign) and isinstance(a.value, ast.Call) and ast.unparse(a.value.func) == 'get_pipeline_path'):
+        raise Untranslatable('get_pipeline_definition: first statement')
+    pv = a.targets[0].id
+    args = tr.call_args(a.value, RES_FUNS['get_pipeline_path'][1],
+                        {'pipeline_name': ('pipeline_name', STR), 'parent': ('parent', PARENT)})
+    if not (isinstance(b, ast.Assign) and isinstance(b.value, ast.Call)
+            and ast.unparse(b.value.func) == 'file_cache.get' and len(b.value.args) == 2
+            and ast.unparse(b.value.args[0]) == f'str({pv})' and isinstance(b.value.args[1], ast.Lambda)
+            and not b.value.args[1].args.args
+            and ast.unparse(b.value.args[1].body) == f'load_pipeline_from_file({pv})'):
+        raise Untranslatable('get_pipeline_definition: cached load')
+    dv = b.targets[0].id
+    if not (isinstance(c, ast.Return) and isinstance(c.value, ast.Name) and c.value.id == dv):
+        raise Untranslatable('get_pipeline_definition: return')
+    out.append('Definition gen_get_pipeline_definition (pipeline_name : string) (parent : pyparent) (st : sysst) '
+               ': res (sysst * pdef) :=\n'
+               f'  (let* {pv} := gen_get_pipeline_path {args} in Ok (gen_load_pipeline_from_file {pv} st)).')
+    return out
+
+
+def read_yaml_block(tr_stmt):
+    """try: with open(path, ...) as f: v = pypyr.yaml.get_pipeline_yaml(f)
+       except FileNotFoundError: <log>; raise          -> name of v"""
+    if len(tr_stmt.body) != 1 or not isinstance(tr_stmt.body[0], ast.With) or tr_stmt.orelse or tr_stmt.finalbody:
+        raise Untranslatable('try block shape')
+    w = tr_stmt.body[0]
+    if len(w.items) != 1 or not isinstance(w.items[0].context_expr, ast.Call) \
+            or ast.unparse(w.items[0].context_expr.func) != 'open' \
+            or ast.unparse(w.items[0].context_expr.args[0]) != 'path' or w.items[0].optional_vars is None:
+        raise Untranslatable('with open(path) shape')
+    fvar = w.items[0].optional_vars.id
+    wb = [s for s in w.body if not skip(s)]
+    if len(wb) != 1 or not isinstance(wb[0], ast.Assign) \
+            or ast.unparse(wb[0].value) != f'pypyr.yaml.get_pipeline_yaml({fvar})':
+        raise Untranslatable('yaml read shape')
+    for h in tr_stmt.handlers:
+        hb = [s for s in h.body if not skip(s)]
+        if len(hb) != 1 or not isinstance(hb[0], ast.Raise) or hb[0].exc is not None:
+            raise Untranslatable('except handler must re-raise')
+    return wb[0].targets[0].id
+
+
+def assigned_names(st):
+    out = set()
+    for n in ast.walk(st):
+        if isinstance(n, ast.Name) and isinstance(n.ctx, ast.Store):
+            out.add(n.id)
+    return out
+
+
+def read_names(st):
+    return {n.id for n in ast.walk(st) if isinstance(n, ast.Name) and isinstance(n.ctx, ast.Load)}
+
+
+def simple_stmt(st):
+    """Assign to a name, or an if/else made only of such"""
+    if isinstance(st, ast.Assign):
+        return len(st.targets) == 1 and isinstance(st.targets[0], ast.Name)
+    if isinstance(st, ast.If):
+        return all(simple_stmt(s) for s in st.body + st.orelse if not skip(s))
+    return False
+
+
+def unit_pype():
+    tree, modname = parse('pypyr/steps/pype.py')
+    tr = Tr(modname, tree)
+    # field order of PypeArgs
+    nt = module_assign(tree, 'PypeArgs')
+    if not (isinstance(nt, ast.Call) and ast.unparse(nt.func) == 'namedtuple' and len(nt.args) == 2
+            and isinstance(nt.args[1], ast.List)):
+        raise Untranslatable('PypeArgs is not namedtuple(name, [fields])')
+    fields = [x.value for x in nt.args[1].elts]
+    fn = find(tree, 'get_arguments')
+    stmts = [s for s in fn.body if not skip(s)]
+    ret = stmts[-1]
+    if not (isinstance(ret, ast.Return) and isinstance(ret.value, ast.Call)
+            and ast.unparse(ret.value.func) == 'PypeArgs' and not ret.value.keywords
+            and len(ret.value.args) == len(fields)):
+        raise Untranslatable('get_arguments must end in `return PypeArgs(<positional>)`')
+    want = {f: ret.value.args[fields.index(f)] for f in ('loader', 'py_dir', 'parent')}
+    needed = set()
+    for e in want.values():
+        needed |= read_names(e)
+    keep = []
+    for st in reversed(stmts[:-1]):
+        asg = assigned_names(st)
+        if not (asg & needed):
+            continue
+        if isinstance(st, ast.Assign) and len(st.targets) == 1 and isinstance(st.targets[0], ast.Name) \
+                and ast.unparse(st.value) in ("context.get_formatted('pype')",
+                                              'context.current_pipeline.pipeline_definition.info'):
+            needed -= asg
+            keep.append(('param', st))
+            continue
+        if not simple_stmt(st):
+            raise Untranslatable(f'get_arguments: {ast.unparse(st)[:60]} feeds loader/py_dir/parent')
+        keep.append(('stmt', st))
+        needed |= read_names(st)
+    keep.reverse()
+    env = {}
+    body = []
+    for kind, st in keep:
+        if kind == 'param':
+            v = st.targets[0].id
+            env[v] = ('pype', OPTS) if 'get_formatted' in ast.unparse(st.value) else ('info', INFO)
+        else:
+            body.append(st)
+    unknown = {n for st in body for n in read_names(st)} - set(env) - {n for st in body for n in assigned_names(st)} \
+        - {'None', 'True', 'False'}
+    if unknown:
+        raise Untranslatable(f'get_arguments: unbound names {sorted(unknown)}')
+
+    def final(env2):
+        ts = []
+        for f, wty in (('loader', OSTR), ('py_dir', OSTR), ('parent', PARENT)):
+            t, ty = tr.expr(want[f], env2)
+            ts.append(tr.coerce(t, ty, wty))
+        return '(' + ', '.join(ts) + ')'
+    term = tr.block(body, env, 'pure', final)
+    out = ['Definition gen_get_arguments (info : pinfo) (pype : pype_opts) '
+           ': option string * option string * pyparent :=\n  ' + term + '.']
+    # run_step: which fields of pype_args reach the child Pipeline and its load
+    fn = find(tree, 'run_step')
+    pa = None
+    for n in ast.walk(fn):
+        if isinstance(n, ast.Assign) and isinstance(n.value, ast.Call) and ast.unparse(n.value.func) == 'get_arguments':
+            pa = n.targets[0].id
+    if pa is None:
+        raise Untranslatable('run_step does not call get_arguments')
+    newp = [n for n in ast.walk(fn) if isinstance(n, ast.Call) and ast.unparse(n.func) == 'Pipeline.new_pipe_and_args']
+    loads = [n for n in ast.walk(fn) if isinstance(n, ast.Call) and isinstance(n.func, ast.Attribute)
+             and n.func.attr == 'load_and_run_pipeline']
+    if len(newp) != 1 or not loads:
+        raise Untranslatable('run_step: new_pipe_and_args / load_and_run_pipeline calls')
+    kw = {k.arg: k.value for k in newp[0].keywords}
+
+    def field_of(e):
+        if isinstance(e, ast.Attribute) and isinstance(e.value, ast.Name) and e.value.id == pa and e.attr in fields:
+            return e.attr
+        raise Untranslatable(f'run_step passes {ast.unparse(e)} instead of a field of {pa}')
+    wired = [field_of(kw['loader']), field_of(kw['py_dir'])]
+    ps = set()
+    for c in loads:
+        if len(c.args) != 2 or c.keywords:
+            raise Untranslatable('load_and_run_pipeline call shape')
+        ps.add(field_of(c.args[1]))
+    if len(ps) != 1:
+        raise Untranslatable('load_and_run_pipeline calls pass different parents')
+    wired.append(ps.pop())
+    if wired != ['loader', 'py_dir', 'parent']:
+        raise Untranslatable(f'run_step wires loader<-{wired[0]}, py_dir<-{wired[1]}, parent<-{wired[2]}')
+    if not (isinstance(kw.get('name'), ast.Attribute) and kw['name'].attr == 'pipeline_name'):
+        raise Untranslatable('run_step: name argument')
+    out.append('Definition gen_run_step_request (info : pinfo) (pype : pype_opts) '
+               ': option string * option string * pyparent :=\n'
+               '  let a := gen_get_arguments info pype in (fst (fst a), snd (fst a), snd a).')
+    return out
+
+
+def unit_pipeline():
+    tree, modname = parse('pypyr/pipeline.py')
+    tr = Tr(modname, tree)
+    fn = find(tree, 'Pipeline.load_and_run_pipeline')
+    names = [a.arg for a in fn.args.args]
+    if names != ['self', 'context', 'parent'] or len(fn.args.defaults) != 1:
+        raise Untranslatable('load_and_run_pipeline signature')
+    d, td = tr.expr(fn.args.defaults[0], {})
+    out = [f'Definition gen_load_and_run_pipeline_default_parent : pyparent := {tr.coerce(d, td, PARENT)}.']
+    stmts = [s for s in fn.body if not skip(s)]
+    # dropped: `if context is None: context = Context()`
+    stmts = [s for s in stmts if not (isinstance(s, ast.If) and ast.unparse(s.test) == 'context is None'
+                                      and assigned_names(s) == {'context'})]
+    if len(stmts) != 4:
+        raise Untranslatable('load_and_run_pipeline: expected py_dir, loader, get_pipeline, run')
+    pyd, ldr, getp, run = stmts
+    env = {'self.py_dir': ('self_py_dir', OSTR), 'self.loader': ('self_loader', OSTR),
+           'self.name': ('self_name', STR), 'parent': ('parent', PARENT), '$st': ('st', ST)}
+    # if self.py_dir: add_sys_path(self.py_dir)   (inside the branch the option is its content)
+    if not (isinstance(pyd, ast.If) and ast.unparse(pyd.test) == 'self.py_dir' and not pyd.orelse):
+        raise Untranslatable('load_and_run_pipeline: py_dir statement')
+    inner = [s for s in pyd.body if not skip(s)]
+    if len(inner) != 1 or ast.unparse(inner[0]) != 'pypyr.moduleloader.add_sys_path(self.py_dir)':
+        raise Untranslatable('load_and_run_pipeline: py_dir branch')
+    st1 = ('(if ostr_truthy self_py_dir then prim_add_sys_path st (PStr (ostr_get self_py_dir)) else st)')
+    if not (isinstance(ldr, ast.Assign) and ast.unparse(ldr.value) == 'loader_cache.get_pype_loader(self.loader)'):
+        raise Untranslatable('load_and_run_pipeline: loader statement')
+    lv = ldr.targets[0].id
+    if not (isinstance(getp, ast.Assign) and ast.unparse(getp.targets[0]) == 'self.pipeline_definition'
+            and isinstance(getp.value, ast.Call) and ast.unparse(getp.value.func) == f'{lv}.get_pipeline'
+            and not getp.value.args):
+        raise Untranslatable('load_and_run_pipeline: get_pipeline statement')
+    kw = {k.arg: k.value for k in getp.value.keywords}
+    if set(kw) != {'name', 'parent'}:
+        raise Untranslatable('get_pipeline keywords')
+    n, tn = tr.expr(kw['name'], env)
+    p, tp = tr.expr(kw['parent'], env)
+    if tn != STR:
+        raise Untranslatable('get_pipeline name type')
+    if not (isinstance(run, ast.With) and 'pipeline_scope' in ast.unparse(run.items[0].context_expr)):
+        raise Untranslatable('load_and_run_pipeline: final statement')
+    out.append('Definition gen_load_and_run_pipeline (self_py_dir self_loader : option string) (self_name : string) '
+               '(parent : pyparent) (st : sysst) : sysst * (option string * string * pyparent) :=\n'
+               f'  ({st1}, (self_loader, {n}, {tr.coerce(p, tp, PARENT)})).')
+    # Pipeline.run: root pipelines get the default parent
+    fn = find(tree, 'Pipeline.run')
+    calls = [c for c in ast.walk(fn) if isinstance(c, ast.Call) and isinstance(c.func, ast.Attribute)
+             and c.func.attr == 'load_and_run_pipeline']
+    if len(calls) != 1 or calls[0].keywords or len(calls[0].args) not in (1, 2):
+        raise Untranslatable('Pipeline.run: load_and_run_pipeline call')
+    if len(calls[0].args) == 1:
+        out.append('Definition gen_root_parent : pyparent := gen_load_and_run_pipeline_default_parent.')
+    else:
+        t, ty = tr.expr(calls[0].args[1], {})
+        out.append(f'Definition gen_root_parent : pyparent := {tr.coerce(t, ty, PARENT)}.')
+    return out
+
+
+def unit_loadercache():
+    tree, modname = parse('pypyr/cache/loadercache.py')
+    tr = Tr(modname, tree)
+    out = []
+    # Loader.get_pipeline: the cache key
+    fn = find(tree, 'Loader.get_pipeline')
+    stmts = [s for s in fn.body if not skip(s)]
+    if len(stmts) != 2 or not isinstance(stmts[0], ast.Assign) or not isinstance(stmts[1], ast.Return):
+        raise Untranslatable('Loader.get_pipeline: expected key assignment and return')
+    kv = stmts[0].targets[0].id
+    r = stmts[1].value
+    if not (isinstance(r, ast.Call) and ast.unparse(r.func) == 'self._pipeline_cache.get' and len(r.args) == 2
+            and ast.unparse(r.args[0]) == kv and isinstance(r.args[1], ast.Lambda)
+            and ast.unparse(r.args[1].body) == 'self._load_pipeline(name, parent)'):
+        raise Untranslatable('Loader.get_pipeline: cache call')
+    env = {'name': ('name', STR), 'parent': ('parent', PARENT)}
+    key = stmts[0].value
+    if not (isinstance(key, ast.Tuple) and len(key.elts) == 2):
+        raise Untranslatable('cache key is not a (parent, name) pair')
+    a, ta = tr.expr(key.elts[0], env)
+    b, tb = tr.expr(key.elts[1], env)
+    if ta != OSTR or tb != STR:
+        raise Untranslatable(f'cache key component types {ta}, {tb}')
+    out.append(f'Definition gen_cache_key (parent : pyparent) (name : string) : option string * string := ({a}, {b}).')
+    # Loader._load_pipeline: wrapping of a bare mapping
+    fn = find(tree, 'Loader._load_pipeline')
+    wrap = None
+    for st in fn.body:
+        if isinstance(st, ast.If) and ast.unparse(st.test) == 'not isinstance(pipeline_definition, PipelineDefinition)':
+            inner = [s for s in st.body if not skip(s)]
+            if len(inner) == 1 and isinstance(inner[0], ast.Assign) \
+                    and ast.unparse(inner[0].targets[0]) == 'pipeline_definition' and not st.orelse:
+                wrap = inner[0].value
+    if wrap is None:
+        raise Untranslatable('Loader._load_pipeline: wrapping statement not found')
+    env = {'name': ('name', STR), 'parent': ('parent', PARENT), 'self.name': ('loader_name', STR),
+           'pipeline_definition': ('payload', YAML)}
+    t, ty = tr.expr(wrap, env)
+    if ty != PDEF:
+        raise Untranslatable('wrapping does not build a PipelineDefinition')
+    out.append('Definition gen_wrap_bare_mapping (loader_name name : string) (parent : pyparent) (payload : string) '
+               f': pdef := {t}.')
+    # LoaderCache.get_pype_loader: default loader
+    fn = find(tree, 'LoaderCache.get_pype_loader')
+    stmts = [s for s in fn.body if not skip(s)]
+    if len(stmts) != 3 or not isinstance(stmts[0], ast.If) or ast.unparse(stmts[0].test) != 'loader':
+        raise Untranslatable('get_pype_loader: expected `if loader: ... else: loader = default`')
+    tb = [s for s in stmts[0].body if not skip(s)]
+    eb = [s for s in stmts[0].orelse if not skip(s)]
+    if tb or len(eb) != 1 or not isinstance(eb[0], ast.Assign) or ast.unparse(eb[0].targets[0]) != 'loader':
+        raise Untranslatable('get_pype_loader: branches')
+    d, td = tr.expr(eb[0].value, {})
+    if td != STR:
+        raise Untranslatable('default loader type')
+    g = stmts[1]
+    if not (isinstance(g, ast.Assign) and isinstance(g.value, ast.Call) and ast.unparse(g.value.func) == 'self.get'
+            and ast.unparse(g.value.args[0]) == 'loader'
+            and ast.unparse(g.value.args[1]) == 'lambda: load_the_loader(loader)'):
+        raise Untranslatable('get_pype_loader: cache call')
+    out.append('Definition gen_pype_loader_name (loader : option string) : string := '
+               f'(if ostr_truthy loader then ostr_get loader else {d}).')
+    return out
+
+
+PRELUDE = '''(** Gen/GenC19.v — GENERATED by tools/py2coq_c19.py from the current source under the repository;
+    do not edit.  A definition that could not be translated gets the suffix _UNTRANSLATED, which
+    breaks every lemma of Proofs/GenC19Proofs.v that mentions the expected name. *)
+From PV Require Import Loader.
+Open Scope string_scope.
+
+(* fixed helpers (not generated from source) *)
+Definition ostr_truthy (o : option string) : bool := match o with Some s => negb (s =? "") | None => false end.
+Definition ostr_get (o : option string) : string := match o with Some s => s | None => "" end.
+Definition ostr_eq_str (o : option string) (s : string) : bool := match o with Some x => x =? s | None => false end.
+Definition optkey_get_ostr (k : optkey string) (d : option string) : option string :=
+  match k with Absent => d | Null => None | Given s => Some s end.
+Definition optkey_get_parent (k : optkey string) (d : pyparent) : pyparent :=
+  match k with Absent => d | Null => PNone | Given s => PStr s end.
+Definition opt_get_bool (k : option bool) (d : bool) : bool := match k with Some b => b | None => d end.
+Definition is_path_obj (p : pyparent) : bool := match p with PPath _ => true | _ => false end.
+Definition parent_text (p : pyparent) : string := p_str p.
+
+Section Gen.
+Variables (repo_root cfg_cwd cfg_pipelines_subdir cfg_default_loader : string).
+Variables (prim_is_file prim_exists prim_is_absolute : string -> bool).
+Variables (prim_resolve prim_parent prim_name prim_Path : string -> string).
+Variable prim_joinpath : string -> string -> string.
+Variable prim_samefile : string -> string -> bool.
+Variable prim_add_sys_path : sysst -> pyparent -> sysst.
+'''
+
+UNITS = [('pypyr/config.py', unit_config, ['gen_config_default_loader', 'gen_config_pipelines_subdir']),
+         ('pypyr/pipedef.py', unit_pipedef, ['gen_PipelineInfo', 'gen_PipelineFileInfo']),
+         ('pypyr/loaders/file.py', unit_file, ['gen_find_pipeline', 'gen_get_pipeline_path',
+                                               'gen_load_pipeline_from_file', 'gen_get_pipeline_definition']),
+         ('pypyr/steps/pype.py', unit_pype, ['gen_get_arguments', 'gen_run_step_request']),
+         ('pypyr/pipeline.py', unit_pipeline, ['gen_load_and_run_pipeline', 'gen_root_parent']),
+         ('pypyr/cache/loadercache.py', unit_loadercache, ['gen_cache_key', 'gen_wrap_bare_mapping',
+                                                           'gen_pype_loader_name'])]
+
+
+def main():
+    lines = [PRELUDE]
+    bad = 0
+    for src, fn, names in UNITS:
+        lines.append(f'(* ---- {src} ---- *)')
+        try:
+            lines += fn()
+        except (Untranslatable, OSError, SyntaxError, KeyError, AttributeError, IndexError) as e:
+            bad += 1
+            reason = str(e).replace('*)', '* )').replace('(*', '( *')
+            lines.append(f'(* NOT TRANSLATED: {type(e).__name__}: {reason} *)')
+            for n in names:
+                lines.append(f'Definition {n}_UNTRANSLATED : unit := tt.')
+        lines.append('')
+    lines.append('End Gen.')
+    text = '\n'.join(lines) + '\n'
+    if not OUT.exists() or OUT.read_text() != text:
+        OUT.write_text(text)
+    print(f'{OUT}: {bad} untranslatable unit(s)')
+    return 0
+
+
+if __name__ == '__main__':
+    sys.exit(main())
